@@ -93,17 +93,25 @@ def buildTimex (t : TR) : Str :=
     fmt2 t.hour ++ (if t.minute ≥ 0 then
       [58] ++ fmt2 t.minute ++ (if t.second ≥ 0 then [58] ++ fmt2 t.second else []) else []) else [])
 
-/-- `build_span(left, right)` (with `sanitize_time_result`: an absent minute / second counts as 0) -/
-def buildSpan (l r : TR) : Str :=
+/-- the borrow arithmetic of `build_span(left, right)` (with `sanitize_time_result`: an absent minute / second counts as
+0): `(span_hour, span_min, span_sec)` -/
+def spanParts (l r : TR) : Int × Int × Int :=
   let z (x : Int) : Int := if x = -1 then 0 else x
-  let sh := r.hour - l.hour
-  let sm := z r.minute - z l.minute
-  let ss := z r.second - z l.second
-  let (ss, sm) := if ss < 0 then (ss + 60, sm - 1) else (ss, sm)
-  let (sm, sh) := if sm < 0 then (sm + 60, sh - 1) else (sm, sh)
-  let sh := if sh < 0 then sh + 24 else sh
-  [80, 84] ++ (if sh ≠ 0 then intStr sh ++ [72] else []) ++ (if sm ≠ 0 then intStr sm ++ [77] else []) ++
-    (if ss ≠ 0 then intStr ss ++ [83] else [])
+  let ss0 := z r.second - z l.second
+  let sm0 := z r.minute - z l.minute
+  let sh0 := r.hour - l.hour
+  let ss := if ss0 < 0 then ss0 + 60 else ss0
+  let sm1 := if ss0 < 0 then sm0 - 1 else sm0
+  let sm := if sm1 < 0 then sm1 + 60 else sm1
+  let sh1 := if sm1 < 0 then sh0 - 1 else sh0
+  let sh := if sh1 < 0 then sh1 + 24 else sh1
+  (sh, sm, ss)
+
+/-- `build_span(left, right)`: `PT` + the non-zero components -/
+def buildSpan (l r : TR) : Str :=
+  let p := spanParts l r
+  [80, 84] ++ (if p.1 ≠ 0 then intStr p.1 ++ [72] else []) ++ (if p.2.1 ≠ 0 then intStr p.2.1 ++ [77] else []) ++
+    (if p.2.2 ≠ 0 then intStr p.2.2 ++ [83] else [])
 
 /-- the am/pm inference across the two ends: "the right side doesn't contain desc while the left side does" —
 `if right.low_bound == -1 and left.low_bound != -1 and right.hour <= left.low_bound: right.hour += 12` -/
